@@ -45,15 +45,6 @@ Proof.
         econstructor; [exact Hr|]. apply IH. exists ss'. split; [reflexivity|exact Hrs].
 Qed.
 
-(* no named group inside *)
-Fixpoint nogrp (r : re) : bool :=
-  match r with
-  | REps | RStr _ | RAny | RCls _ _ | RRef _ => true
-  | RCat a b | RAlt a b => nogrp a && nogrp b
-  | RStar a | RPlus a | ROpt a | RNcg a => nogrp a
-  | RGrp _ _ => false
-  end.
-
 Lemma nogrp_env r e s e' : mt r e s e' -> nogrp r = true -> e' = e.
 Proof.
   induction 1; cbn [nogrp]; intros Hn; try reflexivity; try discriminate;
@@ -62,22 +53,6 @@ Proof.
   - rewrite IHmt2, IHmt1; auto.
   - rewrite IHmt2, IHmt1; auto.
 Qed.
-
-(* The shape of what the compiler emits: named groups only at the top level of the part list,
-   each name defined at most once. *)
-Definition part_flat (r : re) : bool := match r with RGrp _ a => nogrp a | _ => nogrp r end.
-
-Fixpoint grp_names (ps : list re) : list str :=
-  match ps with
-  | [] => []
-  | RGrp n _ :: rs => n :: grp_names rs
-  | _ :: rs => grp_names rs
-  end.
-
-Fixpoint nodup_str (l : list str) : bool :=
-  match l with [] => true | x :: r => negb (mem_str x r) && nodup_str r end.
-
-Definition parts_ok (ps : list re) : bool := forallb part_flat ps && nodup_str (grp_names ps).
 
 Lemma mem_str_In' p ps : mem_str p ps = true <-> In p ps.
 Proof.
@@ -187,3 +162,15 @@ Proof.
   - clear Hc Hok. induction Hp; cbn; congruence.
   - intros i j n a. eapply backref_equal_substrings_parts; eassumption.
 Qed.
+
+(* the same, for the output of the compiler *)
+Theorem backref_equal_substrings_compiled :
+  forall (p : str) (subs : subs_t) (ps : list re) (path : str) (e' : env),
+    conv_regex p subs = COk ps ->
+    parts_ok ps = true ->
+    mt (rcat ps) [] path e' ->
+    exists pieces, concat pieces = path /\ length pieces = length ps /\
+      forall i j n a, (i < j)%nat ->
+        nth_error ps i = Some (RGrp n a) -> nth_error ps j = Some (RRef n) ->
+        exists v, nth_error pieces i = Some v /\ nth_error pieces j = Some v /\ env_get n e' = Some v.
+Proof. intros p subs ps path e' _. exact (backref_equal_substrings ps path e'). Qed.
